@@ -440,14 +440,20 @@ fn run_collections(args: &Args, rep: &mut Report) {
             rep.violate("C18", "C18/string/with_capacity-capacity-below-request", String::new());
         }
         let p0 = s.as_ptr();
-        while s.len() + 4 <= n {
-            let c = ['a', 'é', '€', '😀'][rng.below(4)];
+        // fill to exactly the promised capacity with characters of every width that still fits
+        loop {
+            let room = n - s.len();
+            if room == 0 {
+                break;
+            }
+            let cands: Vec<char> = ['a', 'é', '€', '😀'].iter().copied().filter(|c| c.len_utf8() <= room).collect();
+            let c = cands[rng.below(cands.len())];
             s.push(c);
             if s.len() % 13 == 0 {
                 b.alloc(1u16);
             }
             if s.as_ptr() != p0 {
-                rep.violate("C18", "C18/string/moved-within-reserved-capacity/with_capacity", format!("at len {} of {}", s.len(), n));
+                rep.violate("C18", "C18/string/moved-within-reserved-capacity/with_capacity", format!("pushing {:?} at len {} of promised {}", c, s.len() - c.len_utf8(), n));
                 break;
             }
         }
@@ -458,11 +464,22 @@ fn run_collections(args: &Args, rep: &mut Report) {
         }
         let p1 = s.as_ptr();
         let l0 = s.len();
-        while s.len() + 1 <= l0 + k {
-            s.push_str("x");
+        loop {
+            let room = l0 + k - s.len();
+            if room == 0 {
+                break;
+            }
+            let cands: Vec<char> = ['x', 'ß', '한', '𝄞'].iter().copied().filter(|c| c.len_utf8() <= room).collect();
+            let c = cands[rng.below(cands.len())];
+            if rng.chance(1, 2) {
+                s.push(c);
+            } else {
+                let mut buf = [0u8; 4];
+                s.push_str(c.encode_utf8(&mut buf));
+            }
             b.alloc(1u8);
             if s.as_ptr() != p1 {
-                rep.violate("C18", "C18/string/moved-within-reserved-capacity/reserve", String::new());
+                rep.violate("C18", "C18/string/moved-within-reserved-capacity/reserve", format!("pushing {:?} with {} bytes of promised room left", c, room));
                 break;
             }
         }
